@@ -125,6 +125,16 @@ CHECKS = [
      'note': 'trusted: vlib/jw.py, the fermionic order (column by column) and the to_tensor() sign convention (system legs before ancilla legs) stated in '
              'vlib/pepsgen.py; to_tensor is the observer (cross-checked on product states here and against environments in C12); Heisenberg gate is '
              'compared with J S.S (the code), not with the factor 2 printed in its docstring'},
+    {'id': 'C12',
+     'technique': 'Hypothesis-generated circuit states, environments and measurement requests compared with expectation values on the dense Jordan-Wigner state; generated PEPS/bond/cluster for metric validity; generated evolution steps against dense evolution',
+     'text': 'States from generated shallow circuits on open lattices (chains, 2x2, 2x3, 3x2; 3x3 thorough), pure and purified, every family x symmetry. '
+             'EnvBoundaryMPS (non-binding D_total, discarded weights < 1e-12, every setup), EnvCTM(eye/dl) after max(Nx,Ny)+1 outward expansions, EnvBP on '
+             'chains: measure_1site, measure_nn, measure_2site (pairs/dirn variants), measure_nsite, measure_2x2, measure_line of identity, neutral and '
+             'fermionic charged operators == <psi|O|psi>/<psi|psi> (1e-8). EnvNTU.bond_metric for all six cluster types on finite/infinite/checkerboard/'
+             'cylinder PEPS after the QR reduction of truncate_: Hermitian and PSD to 1e-9. evolution_step_ (NTU variants, BP; methods mpo/NN; local, '
+             'nn, path and MPO gates) with non-binding truncation == dense evolution up to a scalar, truncation_error <= 1e-6, metric diagnostics clean.',
+     'note': 'trusted: vlib/jw.py and to_tensor() as the dense state (C11); CTM-based evolution is not exercised (needs post-truncation options outside the property); '
+             'BP only on loop-free lattices; infinite-lattice measurements are outside the claim'},
     {'id': 'C13',
      'technique': 'Hypothesis-generated spectra and limit combinations checked with a validity predicate derived from the documented two-stage rule; error identity on generated factorisations',
      'text': 'Diagonal spectra with ties, zeros, one-element sectors over 1-5 sectors and every combination of D_total, D_block (scalar/dict), '
